@@ -4,7 +4,7 @@ from datetime import date
 from ipaddress import IPv4Network, IPv6Network
 from typing import Union
 
-from pydantic import BaseModel, ConfigDict, Field, ValidationError, field_validator, model_validator
+from pydantic import BaseModel, BeforeValidator, ConfigDict, Field, ValidationError, field_validator, model_validator
 from typing_extensions import Annotated
 
 from pycfmodel.model.base import FunctionDict
@@ -21,15 +21,37 @@ from pycfmodel.model.types import (
     ResolvableStrOrList,
 )
 
+
+def _is_number(item) -> bool:
+    if isinstance(item, str):
+        try:
+            float(item)
+        except ValueError:
+            return False
+        return True
+    return isinstance(item, (int, float))
+
+
+def _not_from_numbers(value):
+    """
+    Dates, timestamps and IP networks are written as text. A number, or text that is just a number, is none of
+    them (pydantic would read it as seconds since the epoch, `ipaddress` as a packed address).
+    """
+    if any(_is_number(item) for item in (value if isinstance(value, list) else [value])):
+        raise ValueError("A number is not a date, a timestamp or an IP network")
+    return value
+
+
 AuxType = Annotated[
     Union[
         FunctionDict,
         Properties,
         ResolvableBoolOrList,
         ResolvableIntOrList,
-        ResolvableDateOrList,
-        ResolvableDatetimeOrList,  # Date can be parsed as Datetime in pydantic v2 so should be ordered accordingly
-        ResolvableIPOrList,
+        Annotated[ResolvableDateOrList, BeforeValidator(_not_from_numbers)],
+        # Date can be parsed as Datetime in pydantic v2 so should be ordered accordingly
+        Annotated[ResolvableDatetimeOrList, BeforeValidator(_not_from_numbers)],
+        Annotated[ResolvableIPOrList, BeforeValidator(_not_from_numbers)],
         ResolvableArnOrList,
         ResolvableStrOrList,
     ],
